@@ -234,7 +234,7 @@ def c_lit(dm, t, v, pp=False):
         return '(-%s)' % s if v < 0 else s
     suffix = {'int': '', 'uint': 'u', 'long': 'l', 'ulong': 'ul', 'llong': 'll', 'ullong': 'ull'}
     if rank(t) < 3:
-        return '((%s)%s)' % (C_T[t], c_lit(dm, 'int', v))
+        return '((%s)%s)' % (C_T[t], c_lit(dm, 'int' if fits(dm, 'int', v) else 'uint', v))
     if v < 0:
         # INT_MIN and friends have no literal: (-MAX - 1)
         if v == limits(dm, t)[0]:
@@ -259,7 +259,7 @@ def render(dm, e, pp=False):
 def lit_tree(dm, t, v):
     """the expression tree that c_lit(dm, t, v) parses to (literals are non-negative in C)"""
     if rank(t) < 3:
-        return ('cast', t, lit_tree(dm, 'int', v))
+        return ('cast', t, lit_tree(dm, 'int' if fits(dm, 'int', v) else 'uint', v))
     if v < 0:
         if v == limits(dm, t)[0]:
             return ('bin', '-', ('un', '-', ('lit', t, -v - 1)), ('lit', 'int', 1))
